@@ -427,6 +427,45 @@ def Stack.run : Stack → List Op → Except Err Stack
     | .error e => .error e
     | .ok s' => Stack.run s' rest
 
+/-! ### 8. `TiffExport.export_tiff` as a whole (validation, cast, per-page tags) -/
+
+/-- `cast_image` on the whole 3-D or 4-D array of frames: ONE min / max test over all frames, then element-wise. -/
+def castFrames (d : DType) (clip : Bool) (frames : List (List Rat)) : Except Err (List (List Rat)) :=
+  match listMin frames.flatten, listMax frames.flatten with
+  | some lo, some hi =>
+    if lo < d.lo ∨ d.hi < hi then
+      if clip then .ok (frames.map fun fr => (fr.map (clipTo d.lo d.hi)).map (astype d))
+      else .error .runtime
+    else .ok (frames.map fun fr => fr.map (astype d))
+  | _, _ => .error .value
+
+/-- One written page: the DateTime tag, the double behind `"Exposure time (ms)"`, the (flattened) pixels. -/
+structure TiffPage where
+  dt : List Char
+  ms : Rat
+  img : List Rat
+deriving Repr, DecidableEq
+
+/-- `frames = cast_image(frames, dtype, clip) if dtype else frames`. -/
+def framesWritten (dtype : Option DType) (clip : Bool) (frames : List (List Rat)) : Except Err (List (List Rat)) :=
+  match dtype with
+  | none => .ok frames
+  | some d => castFrames d clip frames
+
+/-- `export_tiff(filename, dtype, clip)` given what the four `_tiff_*` hooks return: `RuntimeError` when there are no
+    timestamp ranges (checked first), then the cast (`dtype=None`: frames as they are), then
+    `np.vstack(exposure ranges)` (`ValueError` on an empty list), then one page per element of
+    `zip(frames, frame_timestamp_ranges, exposure_times)` — `zip` stops at the shortest. -/
+def exportTiff (dtype : Option DType) (clip : Bool) (frames : List (List Rat)) (dead exp : List (Int × Int)) :
+    Except Err (List TiffPage) :=
+  if dead.length = 0 then .error .runtime
+  else
+    match framesWritten dtype clip frames with
+    | .error e => .error e
+    | .ok fr =>
+      if exp.length = 0 then .error .value
+      else .ok ((fr.zip (dead.zip (exposureTimesMs exp))).map fun t => ⟨encodeRange t.2.1.1 t.2.1.2, t.2.2, t.1⟩)
+
 /-! ### protocol -/
 open Verif.Proto
 
@@ -500,6 +539,8 @@ def showOuts (l : List (OutPage Int)) : String := "[" ++ ";".intercalate (l.map 
   `c18.expns [p/q,…]`     `int(np.round(1e6 * x))` for each double `x` read from that key
   `c18.exprt [e,…]`       write the key for `e` ns, read it back: the ns the reader gets
   `c18.kymorange [s…] [e…]`  `Kymo._tiff_timestamp_ranges` from the line ranges: `a:b` or `ValueError`
+  `c18.exporttiff <none|u8|u16|f32> <clip> [frame;frame;…] [dead starts] [dead stops] [exp starts] [exp stops]`
+        the whole `export_tiff`: `ok [codes|p/q|v,…;…]` (DateTime characters, exposure double, pixels per page) or the error
   `c18.kymoexp [s…] [e…]`  the "Exposure time (ms)" of a kymograph from its line ranges without dead time: `[p/q]`
   `c18.export <h> <w> [starts] [stops] [expStops] <legacy T/F> <again T/F> op…`
         run the selection program on a fresh stack over these pages (raw pixels = identifiers), export;
@@ -545,6 +586,17 @@ def handle : List String → Option String
     else match kymoRange (s.zip e) with
       | some r => some (toString r.1 ++ ":" ++ toString r.2)
       | none => some "ValueError"
+  | ["c18.exporttiff", d, clip, frames, ds, de, es, ee] => do
+    let d ← if d == "none" then some none else (dtype? d).map some
+    let clip ← bool? clip
+    let frames ← ratListList? frames
+    let ds ← intList? ds; let de ← intList? de; let es ← intList? es; let ee ← intList? ee
+    if ds.length ≠ de.length ∨ es.length ≠ ee.length then none
+    else match exportTiff d clip frames (ds.zip de) (es.zip ee) with
+      | .ok pages => some ("ok [" ++ ";".intercalate (pages.map fun p =>
+          ",".intercalate (p.dt.map fun c => toString c.toNat) ++ "|" ++ showRat p.ms ++ "|" ++
+          ",".intercalate (p.img.map showRat)) ++ "]")
+      | .error e => some e.show
   | ["c18.kymoexp", s, e] => do
     let s ← intList? s; let e ← intList? e
     if s.length ≠ e.length then none
